@@ -357,6 +357,71 @@ theorem urlPath_demand (s : Str) : urlPathOk s = urlPathDemand s := by
     · next r => exact absurd rfl (hne r)
     · rfl
 
+/-! ## literals: the base-0 grammar extends plain decimal -/
+
+theorem digit_facts (c : Char) (h : isDigitC c = true) : (c == '_') = false ∧ digitVal c = some (c.toNat - 48) ∧ c.toNat - 48 < 10 := by
+  simp only [isDigitC, Bool.and_eq_true, decide_eq_true_eq] at h
+  refine ⟨?_, ?_, by omega⟩
+  · cases hc : c == '_' with
+    | false => rfl
+    | true =>
+      have : c = '_' := by simpa using hc
+      subst this
+      exact absurd h (by decide)
+  · simp [digitVal, isDigitC, h.1, h.2]
+
+theorem digitsBase_decimal : ∀ (s : Str) (acc : Nat), s.all isDigitC = true → digitsBase 10 s acc = some (digitsVal s acc)
+  | [], acc, _ => rfl
+  | c :: cs, acc, h => by
+    simp only [List.all_cons, Bool.and_eq_true] at h
+    rcases digit_facts c h.1 with ⟨h1, h2, h3⟩
+    simp only [digitsBase, h1, Bool.false_eq_true, if_false, h2, h3, if_true, digitsVal]
+    exact digitsBase_decimal cs _ h.2
+
+theorem no_underscore (s : Str) (h : s.all isDigitC = true) : s.contains '_' = false := by
+  apply contains_false_of
+  intro c hc e
+  subst e
+  have := List.all_eq_true.mp h _ hc
+  exact absurd this (by decide)
+
+/-- a plain decimal (no sign, no leading zero) is read by `ParseUint(s, 0, _)` / `ParseInt(s, 0, _)` as that number -/
+theorem parseUintLit_decimal (s : Str) (n : Nat) (h : decimalNat s = some n) : parseUintLit s = some n := by
+  cases s with
+  | nil => simp [decimalNat] at h
+  | cons c r =>
+    by_cases hz : c = '0'
+    · subst hz
+      cases r with
+      | nil =>
+        simp only [decimalNat, Option.some.injEq] at h
+        subst h
+        decide
+      | cons d r' => simp [decimalNat] at h
+    · have hne : (c == '0') = false := by simp [hz]
+      have hd : allDigits (c :: r) = true ∧ n = digitsVal (c :: r) 0 := by
+        unfold decimalNat at h
+        split at h
+        · simp at h
+        · next heq => cases heq; exact absurd rfl hz
+        · next c' r'' _ heq =>
+          cases heq
+          simp only [hne, Bool.false_eq_true, if_false] at h
+          by_cases ha : allDigits (c :: r) = true
+          · simp only [ha, if_true, Option.some.injEq] at h
+            exact ⟨ha, h.symm⟩
+          · simp [ha] at h
+      have hall : (c :: r).all isDigitC = true := by
+        have := hd.1
+        simp only [allDigits, Bool.and_eq_true] at this
+        exact this.2
+      unfold parseUintLit
+      split
+      · next heq => cases heq
+      · next rest heq => cases heq; exact absurd rfl hz
+      · rw [digitsBase_decimal _ 0 hall, no_underscore _ hall, hd.2]
+        simp
+
 /-! ## every documented constraint -/
 
 theorem decide_lt_not_le (a b : Int) : decide (a < b) = !decide (b ≤ a) := by
